@@ -1,3 +1,14 @@
-/-! # C01 — (stub: property theorems go here; see docs/BUILDING.md) -/
+import PtVerif.Model.Grammar
+import PtVerif.Model.GrammarTable
+/-! # C01 — a formula string denotes what the grammar says (first cut) -/
 namespace PtVerif.C01
+open PtModel PtModel.Grammar
+
+/-- the empty string is the empty formula, for every table -/
+theorem parse_empty (T : Table) : parse T [] = .ok (.nil, none) := by
+  simp [parse, fuelFor, pComposite, pGroup, pImplicit, pCount, pElements, pElement, pSymbol, skipWs, pLit]
+
+/-- data fact over the regenerated table: no two entries share a symbol -/
+theorem genTable_symbols_nodup : (genTable.map (·.sym)).Nodup := by decide +kernel
+
 end PtVerif.C01
